@@ -402,6 +402,12 @@ def rhs_and_guess(rng, n, trip, guess_kind, rhs_kind, ints=True):
     elif rhs_kind == "scaled":
         sc = 2.0 ** rng.range(-30, 30)          # power of two: keeps exactness
         xt = [v * sc for v in xt]
+    elif rhs_kind == "tiny":
+        # ||b|| below machine epsilon (or far above 1/epsilon): the tests are RELATIVE to ||b||, so nothing may change
+        # but the scale (a zero-rhs guard written as `normb < EPSILON` is wrong here: seeded mutation C08-6)
+        e = rng.range(55, 200)
+        sc = 2.0 ** (-e if rng.chance(3, 4) else e)
+        xt = [v * sc for v in xt]
     b = csc_mul(trip, n, xt)
     if guess_kind == "zero": x0 = [0.0] * n
     elif guess_kind == "exact": x0 = list(xt)
